@@ -124,6 +124,8 @@ type c20Mon struct {
 	canon string
 	nt    bool
 	dead  bool // a guarded call hung or panicked: the objects are unusable
+	// noLocus makes compare leave the place of the difference out of the key.
+	noLocus bool
 }
 
 func (m *c20Mon) eval(op string) {
@@ -266,7 +268,11 @@ func (m *c20Mon) compare(keyPrefix, what string, got []string, lastErr error, ex
 	} else {
 		w["expected"] = "io.EOF"
 	}
-	m.rec.violate(keyPrefix+":"+kind+":"+m.locus(exp, bad),
+	key := keyPrefix + ":" + kind
+	if !m.noLocus {
+		key += ":" + m.locus(exp, bad)
+	}
+	m.rec.violate(key,
 		fmt.Sprintf("%s: read #%d differs from the generated file (%s)", what, bad, kind), w)
 	return false
 }
@@ -994,13 +1000,23 @@ func c20RunCase(rep *verifkit.Report, id int, kind, dir string, maxBytes, budget
 			_ = q.Close()
 		}
 	}
+
+	// ---- reuse histories on fresh readers ---------------------------------
+	if !m.dead {
+		m.readerHistories(paths, verifkit.Pick(3, 4), verifkit.Pick(14, 20))
+	}
+	if !m.dead {
+		m.fileHistories(verifkit.Pick(10, 14))
+	}
 	return rec
 }
 
 func TestVerifC20(t *testing.T) {
 	rep := verifkit.New("C20", "files",
 		"case = (generated file set of one or two query-log files, operation); an operation is a full backward sweep (SeekStart + ReadNext to io.EOF), "+
-			"a seek to the timestamp of a stored line followed by reads, or a seek to an absent timestamp followed by reads from the start; every result is compared with the generated line list; "+
+			"a seek to the timestamp of a stored line followed by reads, a seek to an absent timestamp followed by reads from the start, or one step of a reuse history "+
+			"(SeekStart / seekTS present or absent / seekRecord / ReadNext x n on one reader, with the position carried over; after a seek that reported an error the reads must continue from the position before the seek or from the start); "+
+			"every result is compared with the generated line list; "+
 			"non-trivial = the file set contains a file larger than one 1.6 MB read window, or a file mixing at least three line-length classes, or two non-empty files; "+
 			"distinct by (lengths and timestamps of all lines, level file/reader, operation, target)")
 	defer func() {
@@ -1125,6 +1141,16 @@ func TestVerifC20(t *testing.T) {
 		"file_seek_present:inner-line":                               1000,
 		"file_seek_present:first-line":                               50,
 		"file_seek_present:last-line":                                50,
+		"history(reader):reads_after_failed_seek(total)":             1000,
+		"history(file):reads_after_failed_seek(total)":               500,
+		"history(reader):reads_after_failed_seek_reaching_eof":       100,
+		"history(reader):read_runs_crossing_the_file_boundary":       50,
+		"history(reader):reads_after_failed_seek:before-first/target-in-before-everything/reader-in-current": 50,
+		"history(reader):reads_after_failed_seek:before-first/target-in-before-everything/reader-in-rotated": 20,
+		"history(reader):reads_after_failed_seek:between-neighbours/target-in-rotated/reader-in-current":     20,
+		"history(reader):reads_after_failed_seek:between-neighbours/target-in-current/reader-in-rotated":     20,
+		"history(reader):reads_after_failed_seek:between-neighbours/target-in-rotated/reader-in-rotated":     20,
+		"history(reader):reads_after_failed_seek:between-neighbours/target-in-current/reader-in-current":     20,
 	}
 	if !rep.Violated() {
 		for k, n := range need {
